@@ -33,6 +33,8 @@ def layout(ty, prog):
         return 0, 1
     if ty == "Tracked":
         return 16, 8
+    if ty == "String":
+        return 16, 8
     if ty[0] == "list":
         return 8, 8
     if ty[0] == "rec":
@@ -67,7 +69,7 @@ def variants(ty, prog):
 
 def is_ref_type(ty, prog):
     """passed by pointer: records, enums, Tracked (unless zero-sized)"""
-    if isinstance(ty, tuple) or ty == "Tracked":
+    if isinstance(ty, tuple) or ty in ("Tracked", "String"):
         return layout(ty, prog)[0] > 0
     return False
 
@@ -87,7 +89,7 @@ def write_value(path, ptr, ty, v, prog):
     elif ty == "bool":
         path.store(ptr, scalar_to_clif(ty, v), 1)
     elif is_float(ty):
-        path.store(ptr, z3.fpToIEEEBV(v), 4 if ty == "f32" else 8)
+        path.store(ptr, v, 4 if ty == "f32" else 8)
     elif ty[0] == "rec":
         _, _, offs = struct_layout([t for _, t in prog.records[ty[1]]], prog)
         for (f, t), o in zip(prog.records[ty[1]], offs):
@@ -126,8 +128,8 @@ def mem_equals(path, ptr, ty, v, prog, notes):
     if ty == "bool":
         return path.load(ptr, 1) == scalar_to_clif(ty, v)
     if is_float(ty):
-        bits = path.load(ptr, 4 if ty == "f32" else 8)
-        return z3.fpBVToFP(bits, FLOATS[ty]) == v
+        bits = path.load(ptr, 4 if ty == "f32" else 8, as_float=True)
+        return (bits if z3.is_fp(bits) else z3.fpBVToFP(bits, FLOATS[ty])) == v
     if ty == "Tracked":
         return path.load(Ptr(ptr.region, ptr.off + 8), 4) == v["val"]
     if ty[0] == "rec":
@@ -186,6 +188,16 @@ def tracked_id(path, ptr, what):
     return idv.as_long()
 
 
+from lang import norm_content
+
+
+def content_equal(a, b):
+    try:
+        return lang.content_equal(a, b)
+    except lang.StringShape:
+        raise Unsupported("comparison of strings with symbolic parts of different shape")
+
+
 def host_models():
     H = {}
 
@@ -197,7 +209,7 @@ def host_models():
         path.events.append(Event("host", name, [args[2]]))
         v = args[2]
         if z3.is_fp(v):
-            path.store(args[1], z3.fpToIEEEBV(v), (v.sort().ebits() + v.sort().sbits()) // 8)
+            path.store(args[1], v, (v.sort().ebits() + v.sort().sbits()) // 8)
         else:
             path.store(args[1], v, v.size() // 8)
         return None
@@ -374,6 +386,83 @@ def host_models():
         release(path, h)
         return None
 
+    # ---- strings: ledger objects (same ids / states as tracked values) with a content made of literal text and
+    # to_string(number) parts
+    def new_string(path, out, content):
+        i = path.ledger.fresh()
+        path.strings[i] = content
+        path.events.append(Event("own", "create_string", [i]))
+        path.store(out, z3.BitVecVal(i, 64), 8)
+        path.store(Ptr(out.region, out.off + 8), z3.BitVecVal(0x5354, 64), 8)
+        return i
+
+    def string_at(path, ptr, what, consume):
+        i = tracked_id(path, ptr, what)
+        if i is None or not path.ledger.use(i, what):
+            return None
+        if consume:
+            path.ledger.state[i] = "moved"
+        return path.strings.get(i)
+
+    def init_string(path, tyname, args):
+        out, data, ln = args
+        n = conc(ln, "string length")
+        raw = bytes(conc(path.load(Ptr(data.region, data.off + k), 1), "string data") for k in range(n))
+        new_string(path, out, [raw.decode("utf-8")] if raw else [])
+        return None
+
+    def clone_string(path, tyname, args):
+        c = string_at(path, args[1], "clone", consume=False)
+        new_string(path, args[0], list(c) if c is not None else [])
+        return None
+
+    def drop_string(path, tyname, args):
+        i = tracked_id(path, args[0], "drop")
+        if path.ledger.use(i, "drop"):
+            path.ledger.state[i] = "dropped"
+        path.events.append(Event("own", "drop", [i]))
+        return None
+
+    def eq_string(path, tyname, args):
+        a = string_at(path, args[0], "eq", consume=False)
+        b = string_at(path, args[1], "eq", consume=False)
+        if a is None or b is None:
+            return z3.BitVecVal(0, 8)
+        return z3.simplify(b2i8(content_equal(a, b)))
+
+    def append(path, name, args):
+        a = string_at(path, args[2], "append", consume=True)
+        b = string_at(path, args[3], "append", consume=True)
+        new_string(path, args[1], norm_content((a or []) + (b or [])))
+        return None
+
+    def to_string_string(path, name, args):
+        a = string_at(path, args[2], "to_string", consume=True)
+        new_string(path, args[1], list(a or []))
+        return None
+
+    def emit_str(path, name, args):
+        a = string_at(path, args[2], name, consume=True)
+        path.events.append(Event("host", name, [("str", tuple(a or []))]))
+        if name == "pure_str":
+            new_string(path, args[1], list(a or []))
+        return None
+
+    def to_string_num(ty):
+        def model(path, name, args):
+            v = args[2]
+            if ty == "bool":
+                v = z3.simplify(v != z3.BitVecVal(0, 8))
+            new_string(path, args[1], [("num", ty, v)])
+            return None
+        return model
+
+    H["@init_string"] = init_string
+    H["@clone:String"], H["@drop:String"], H["@eq:String"] = clone_string, drop_string, eq_string
+    H["append"], H["emit_str"], H["pure_str"] = append, emit_str, emit_str
+    H["to_string:String"] = to_string_string
+    for t in list(INTS) + ["bool"]:
+        H[f"to_string:{t}"] = to_string_num(t)
     H["new"], H["push"], H["len"], H["get"] = list_new, list_push, list_len, list_get
     H["@clone:List"], H["@drop:List"] = clone_list, drop_list
     return H
@@ -393,6 +482,29 @@ def dump_programs(paths, out_dir, batch=40):
                     if q.returncode != 0:
                         json.dump({"script": one, "compile": "crash", "rc": q.returncode, "stderr": q.stderr[-500:], "items": [],
                                    "data": {}, "symbols": []}, open(os.path.join(out_dir, stem + ".json"), "w"))
+
+
+def discover_to_string(work_dir):
+    """which runtime function id is `to_string` of which type: compile a probe script with the real compiler and read
+    the CallRuntime instruction of each probe function from the captured LIR"""
+    import re as _re
+    types = list(INTS) + ["bool", "String"]
+    src_ = "".join(f"fn ts_{t.lower()}(a: {t}) -> String {{\n    f\"{{a}}\"\n}}\n\n" for t in types)
+    os.makedirs(work_dir, exist_ok=True)
+    script = os.path.join(work_dir, "to_string_probe.roto")
+    open(script, "w").write(src_)
+    dump_programs([script], work_dir)
+    d = json.load(open(os.path.join(work_dir, "to_string_probe.json")))
+    table = {}
+    for t in types:
+        for ins in d.get("lir", {}).get(f"pkg.ts_{t.lower()}", []):
+            m = _re.match(r"CallRuntime \{ func: RuntimeFunctionRef\((\d+)\)", ins)
+            if m:
+                table[int(m.group(1))] = t
+                break
+    clif.TO_STRING_TYPES.clear()
+    clif.TO_STRING_TYPES.update(table)
+    return table
 
 
 def sig_of(fn):
@@ -462,6 +574,7 @@ def check_program(prog, script, dump, modes, k_loop=4, depth=4, timeout_ms=10000
             path = Path(world, decide, k_loop, depth)
             path.ledger = Ledger()
             path.lists = {"stores": [], "handles": {}, "next": 5000}
+            path.strings = {}
             args = []
             if ret_by_ptr:
                 path.ret_region = path.new_region("ret", layout(entry.ret, prog)[0])
@@ -604,8 +717,8 @@ def check_program(prog, script, dump, modes, k_loop=4, depth=4, timeout_ms=10000
                     ref, refv = rres
                     notes = []
                     if "value" in modes:
-                        diff = value_differs(path, entry.ret, rv, refv, prog, notes)
-                        m = ask(both + [diff])
+                        diff = z3.simplify(value_differs(path, entry.ret, rv, refv, prog, notes))
+                        m = None if z3.is_false(diff) else ask(both + [diff])
                         if m is not None:
                             out.findings.append({"kind": "value", "detail": f"returned value differs from the reference on a feasible path",
                                                  "args": argbits(m)})
@@ -622,9 +735,18 @@ def check_program(prog, script, dump, modes, k_loop=4, depth=4, timeout_ms=10000
                         diffs = []
                         for a, b in zip(ct, rt):
                             for x, y in zip(a.args, b[1]):
+                                if isinstance(x, tuple) and x[0] == "str":
+                                    try:
+                                        diffs.append(z3.Not(lang.content_equal(list(x[1]), list(y[1]))))
+                                    except lang.StringShape:
+                                        # contents of different shape: different unless this path pair is infeasible (the solver
+                                        # decides that; a model is replayed against the real log before anything is reported)
+                                        diffs.append(z3.BoolVal(True))
+                                    continue
                                 if z3.is_bool(y):
                                     y = scalar_to_clif("bool", y)
                                 diffs.append(z3.Not(x == y) if z3.is_fp(x) else x != y)
+                        diffs = [d for d in (z3.simplify(d) for d in diffs) if not z3.is_false(d)]
                         if diffs:
                             m = ask(both + [z3.Or(diffs)])
                             if m is not None:
@@ -632,6 +754,8 @@ def check_program(prog, script, dump, modes, k_loop=4, depth=4, timeout_ms=10000
                                                      "args": argbits(m)})
         if out.cut_pairs:
             out.status, out.reason = "inconclusive", f"{out.cut_pairs} path pair(s) where the reference completes within the bound but the code path was cut"
+    except lang.StringShape:
+        out.status, out.reason = "unsupported", "comparison of strings with symbolic parts of different shape (reference)"
     except Unsupported as e:
         out.status, out.reason = "unsupported", str(e)[:300]
     except (z3.Z3Exception,) as e:
